@@ -158,6 +158,10 @@ func FindInsertionPoints(
 
 			// each value in the result contributes an insertion point
 			for entryI, iEntry := range rootList {
+				// a null entry of a list with nullable items has nothing to be completed
+				if iEntry == nil {
+					continue
+				}
 				resultEntry, ok := iEntry.(map[string]interface{})
 				if !ok {
 					return nil, errors.New("entry in result wasn't a map")
